@@ -145,6 +145,17 @@ fn main() {
             let code = dispatch!(id.as_str(), do_replay, path);
             std::process::exit(code);
         }
+        "verify-dir" => {
+            // one verification in a fresh process (fresh hash seeds); used by C13
+            let dir = PathBuf::from(args.get(2).cloned().unwrap_or_default());
+            let saved = unsafe { libc::dup(1) };
+            silence_stdio();
+            let v = props::c13::verify_dir_once(&dir);
+            unsafe {
+                libc::dup2(saved, 1);
+            }
+            println!("VERIFY-DIR {}", v);
+        }
         "worker" => {
             silence_stdio();
             let id = args.get(2).cloned().unwrap_or_default();
